@@ -209,6 +209,10 @@ def _check_mu(ctx, m, cl, d1, d2, D, after):
     got = m.Mu.tolist()
     ctx.prove(len(got) == len(ref) and all_eq(ctx, got, ref), "running fitted values equal those implied by the current parameters after %s" % after,
               key="stale fitted values after %s" % after)
+    if ctx.symbolic:
+        # proven equal on this path: continue with the from-scratch terms (substituting equals for equals keeps later
+        # obligations near-syntactic instead of making the solver re-derive this identity inside each of them)
+        m.Mu = ctx.np.array(ref, dtype=float)
 
 
 def _scalar_block(ctx, G, start, name, P_pre, Hy, ys, cl, d1, d2, D, n_comp, post_of, with_data):
